@@ -1198,6 +1198,21 @@ func runFlow1(m *Model, r *RuleResult) {
 		for _, e := range phi.Edges {
 			if c, isC := e.(*ssa.Const); isC && c.Value != nil && c.Value.String() == "0" {
 				z = true
+				continue
+			}
+			// every way round the component loop must carry the update: an unchanged value (the phi itself, or a phi that merges
+			// it with the update) means some components do not advance the shift
+			if e == ssa.Value(phi) {
+				okRec = false
+				why = "the shift is advanced only under a condition: some components leave it unchanged and the next one is drawn on top of them"
+			}
+			if ph2, isPhi := e.(*ssa.Phi); isPhi {
+				for _, e2 := range ph2.Edges {
+					if e2 == ssa.Value(phi) {
+						okRec = false
+						why = "the shift is advanced only under a condition: some components leave it unchanged and the next one is drawn on top of them"
+					}
+				}
 			}
 		}
 		if !z {
@@ -2078,6 +2093,54 @@ func runRec1(m *Model, r *RuleResult) {
 			}
 		})
 		if !guarded {
+			// entry guard through a test-and-mark helper: `if !visit(n, seen) { return }` where the helper reports false for a
+			// marked key and otherwise marks it and reports true
+			eachInstr(t, func(in ssa.Instruction) {
+				iff0, ok := in.(*ssa.If)
+				if !ok || guarded {
+					return
+				}
+				c := iff0.Cond
+				neg := false
+				if u, isU := c.(*ssa.UnOp); isU && u.Op == token.NOT {
+					c, neg = u.X, true
+				}
+				call, ok := c.(*ssa.Call)
+				if !ok || call.Call.StaticCallee() == nil || !inModule(call.Call.StaticCallee()) {
+					return
+				}
+				_, ki, ok := testAndMarkHelper(call.Call.StaticCallee())
+				if !ok {
+					return
+				}
+				args := call.Call.Args
+				if ki >= len(args) || paramIndex(t, args[ki]) < 0 {
+					return
+				}
+				// the branch taken when the helper says "already marked" (false) returns at once
+				falseSucc := iff0.Block().Succs[1]
+				if neg {
+					falseSucc = iff0.Block().Succs[0]
+				}
+				if len(falseSucc.Instrs) == 0 || len(falseSucc.Instrs) > 2 {
+					return
+				}
+				if _, isRet := falseSucc.Instrs[len(falseSucc.Instrs)-1].(*ssa.Return); !isRet {
+					return
+				}
+				dom := true
+				for _, s := range sites {
+					if s.fn == t && !instrDominates(call, s.in) {
+						dom = false
+					}
+				}
+				if dom {
+					guarded = true
+					how = "entry test through the test-and-mark helper " + call.Call.StaticCallee().Name() + " (false for a marked key, otherwise marks it) before recursing"
+				}
+			})
+		}
+		if !guarded {
 			// site guards: every recursive site controlled by a lookup of M keyed by (a value feeding) the argument, M marked before the call
 			all := true
 			for _, s := range sites {
@@ -2142,6 +2205,78 @@ func runRec1(m *Model, r *RuleResult) {
 				Detail: "no set is marked for the visited element before recursing and tested at the call or at entry: on any cycle of the traversed structure the recursion never ends (stack overflow aborts the process)", Control: ctl})
 		}
 	}
+}
+
+// testAndMarkHelper: h(…, k, …, M, …) bool returns the constant false exactly on the branch where M[k] is set, and on every
+// other path marks M[k] before returning the constant true. mi / ki are the parameter positions of the map and the key.
+func testAndMarkHelper(h *ssa.Function) (mi, ki int, ok bool) {
+	if h == nil || len(h.Blocks) == 0 || h.Signature.Results().Len() != 1 {
+		return 0, 0, false
+	}
+	var test *ssa.If
+	var mp, key ssa.Value
+	eachInstr(h, func(in ssa.Instruction) {
+		if iff, isIf := in.(*ssa.If); isIf && test == nil {
+			if m2, k2, isT := membershipTest(iff.Cond); isT && paramIndex(h, k2) >= 0 {
+				test, mp, key = iff, m2, k2
+			}
+		}
+	})
+	if test == nil {
+		return 0, 0, false
+	}
+	// polarity: which successor is the "member" branch
+	c := test.Cond
+	neg := false
+	for {
+		u, isU := c.(*ssa.UnOp)
+		if !isU || u.Op != token.NOT {
+			break
+		}
+		c, neg = u.X, !neg
+	}
+	member := test.Block().Succs[0]
+	if neg {
+		member = test.Block().Succs[1]
+	}
+	var mark *ssa.MapUpdate
+	eachInstr(h, func(in ssa.Instruction) {
+		if mu, isMu := in.(*ssa.MapUpdate); isMu && mu.Key == key && sameMapValue(mu.Map, mp) && isConstBoolValue(mu.Value, true) {
+			mark = mu
+		}
+	})
+	if mark == nil {
+		return 0, 0, false
+	}
+	okRets, nTrue, nFalse := true, 0, 0
+	eachInstr(h, func(in ssa.Instruction) {
+		ret, isRet := in.(*ssa.Return)
+		if !isRet {
+			return
+		}
+		switch {
+		case len(ret.Results) == 1 && isConstBool(ret.Results[0], false):
+			nFalse++
+			if !(ret.Block() == member || member.Dominates(ret.Block())) {
+				okRets = false
+			}
+		case len(ret.Results) == 1 && isConstBool(ret.Results[0], true):
+			nTrue++
+			if !instrDominates(mark, ret) {
+				okRets = false
+			}
+		default:
+			okRets = false
+		}
+	})
+	if !okRets || nTrue == 0 || nFalse == 0 {
+		return 0, 0, false
+	}
+	mi = paramIndex(h, mp)
+	if mi < 0 {
+		mi = 0 // a field of the receiver
+	}
+	return mi, paramIndex(h, key), true
 }
 
 // membershipTest recognises a set-membership test in a branch condition (negation stripped): m[k] on a bool-valued map,
